@@ -1,3 +1,4 @@
+import AnySyncModel.Generated.DeletionShape
 /-!
 # Deletion (C15): executable model
 
@@ -105,10 +106,16 @@ def createTx (s : St) (k : Nat) : St :=
   | some p => if (createBase s k).tomb p then setStatus (createBase s k) k 1 else createBase s k
   | none => createBase s k
 
+/-- regenerated from the source on every run: the tombstone re-check sits inside `CreateStorageTx` and the
+callers open the write transaction before calling it. When the extractor does not find that shape the model
+has no re-check (and `recheck_on`, hence every invariant proof, breaks). -/
+def recheck : Bool :=
+  Generated.DeletionShape.recheckInsideCreateStorageTx && Generated.DeletionShape.callersOpenTxFirst
+
 /-- the checks of `CreateStorageTx` in their order: tombstone re-check inside the transaction, parent
 entry present -/
 def createCheck (s : St) (k : Nat) : Res :=
-  if s.tomb k then .deleted
+  if recheck && s.tomb k then .deleted
   else match s.parent k with
     | some p => if s.entry p then .ok else .noparent
     | none => .ok
@@ -271,8 +278,7 @@ def stepRestart (s : St) (v : Option View) : St × Res :=
   (fillDiff r.1, r.2)
 
 /-- crash inside a deletion-worker pass: the first id `k` was marked Deleted (tree deleted), its bound
-children were not handled yet; then the peer restarts. Not an `Op`: the theorems of `Props/C15` are about
-crash-free worker passes, the correspondence and the direct oracle also cover this step. -/
+children were not handled yet; then the peer restarts. (`Op.crash`) -/
 def stepCrash (s : St) (k : Nat) (v : Option View) : St × Res :=
   if s.mirror k = 1 then stepRestart (deleteOne s k) v else (s, .nofetch)
 
@@ -295,7 +301,7 @@ def stepDel (s : St) (k : Nat) (snap : Bool) (v : Option View) : St × Res × Re
 
 inductive Op where
   | put (k : Nat) | fetch (k : Nat) | fstart (k : Nat) | ffin | edit (k : Nat) | head (k : Nat)
-  | run | restart (v : Option View) | deliver (v : Option View)
+  | run | restart (v : Option View) | crash (k : Nat) (v : Option View) | deliver (v : Option View)
   | del (k : Nat) (snap : Bool) (v : Option View)
   | record (r : Rec)
   deriving Repr, Inhabited
@@ -309,6 +315,7 @@ def step (s : St) : Op → St × Res
   | .head k => stepHead s k
   | .run => (stepRun s, .ok)
   | .restart v => stepRestart s v
+  | .crash k v => stepCrash s k v
   | .deliver v => stepDeliver s v
   | .del k snap v => let r := stepDel s k snap v; (r.1, r.2.1)
   | .record r => ({ s with recs := s.recs ++ [r] }, .ok)
